@@ -132,4 +132,33 @@ theorem runPatchers_seen (papply : P → Assoc K V → Assoc K V) (c : Nat) (ps 
     | zero => simp at h; subst h; simp [runPatchers, applyAll]
     | succ i => simp at h; simp [runPatchers, applyAll, ih _ _ h]
 
+/-! the configured patcher and its guard -/
+
+theorem coreCalledWith_none (guard : PatcherGuard) (s : State K V P) (h : s.corePatcher = none) :
+    coreCalledWith guard s = [] := by
+  cases guard <;> simp [coreCalledWith, h]
+
+theorem coreCalled_none (s : State K V P) (h : s.corePatcher = none) : coreCalled s = [] :=
+  coreCalledWith_none _ s h
+
+/-- a truthy configured patcher is called under either guard -/
+theorem coreCalledWith_truthy (guard : PatcherGuard) (s : State K V P)
+    (h : ∀ p, s.corePatcher = some p → s.truthy p = true) :
+    coreCalledWith guard s = s.corePatcher.toList := by
+  cases guard with
+  | isNotNone => rfl
+  | truthy =>
+    cases hp : s.corePatcher with
+    | none => simp [coreCalledWith, hp]
+    | some p => simp [coreCalledWith, hp, Option.filter, h p hp]
+
+/-- under `if core.patcher is not None:` the configured patcher is always called -/
+theorem coreCalledWith_isNotNone (s : State K V P) :
+    coreCalledWith .isNotNone s = s.corePatcher.toList := rfl
+
+/-- under `if core.patcher:` a configured patcher whose object is falsy is never called -/
+theorem coreCalledWith_truthy_falsy (s : State K V P) (p : P) (hp : s.corePatcher = some p)
+    (hf : s.truthy p = false) : coreCalledWith .truthy s = [] := by
+  simp [coreCalledWith, hp, Option.filter, hf]
+
 end Context
